@@ -51,6 +51,7 @@ Inductive gexpr :=
 | GLen (e : gexpr)
 | GStrFn (f : strfn) (a b : gexpr)              (* strings.Contains(a, b) ... *)
 | GMatch (pat s : gexpr)                        (* regexp.MustCompile(pat).MatchString(s) *)
+| GMatchSafe (pat s : gexpr)                    (* func() bool { re, err := regexp.Compile(pat); if err != nil { return false }; return re.MatchString(s) }() *)
 | GSprintV (e : gexpr)                          (* fmt.Sprintf("%v", e) *)
 | GSlicesContains (l x : gexpr)
 | GStrList (es : list gexpr)                    (* []string{...} *)
@@ -99,7 +100,7 @@ Fixpoint gexpr_eqb (a b : gexpr) : bool :=
   | GAtoi x, GAtoi y | GParseFloat x, GParseFloat y | GParseDur x, GParseDur y | GParseTime x, GParseTime y => gexpr_eqb x y
   | GBin o x y, GBin o' x' y' => gbin_eqb o o' && gexpr_eqb x x' && gexpr_eqb y y'
   | GStrFn f x y, GStrFn f' x' y' => strfn_eqb f f' && gexpr_eqb x x' && gexpr_eqb y y'
-  | GMatch x y, GMatch x' y' | GSlicesContains x y, GSlicesContains x' y' => gexpr_eqb x x' && gexpr_eqb y y'
+  | GMatch x y, GMatch x' y' | GMatchSafe x y, GMatchSafe x' y' | GSlicesContains x y, GSlicesContains x' y' => gexpr_eqb x x' && gexpr_eqb y y'
   | GStrList x, GStrList y | GIfaceList x, GIfaceList y => list_eqb x y
   | GAll v r c, GAll v' r' c' | GExists v r c, GExists v' r' c' | GExistsOne v r c, GExistsOne v' r' c'
   | GFilter v r c, GFilter v' r' c' | GMapC v r c, GMapC v' r' c' =>
